@@ -17,8 +17,8 @@ EXTENDS Vrf, Json
 
 Trace == ndJsonDeserialize("trace.ndjson")
 
-VARIABLES l, bad, outs     \* outs: the lottery output (class id) of the honest proof for the current key and message
-tvars == <<vars, l, bad, outs>>
+VARIABLES l, bad, seen, outs     \* outs: the lottery output (class id) of the honest proof for the current key and message
+tvars == <<vars, l, bad, seen, outs>>
 
 Tag(c, t) == IF c THEN <<>> ELSE <<t>>
 
@@ -45,7 +45,20 @@ JudgeTorsion(e) ==
   Tag(e.accepted => e.outClass \in outs,
       "Inv.UniqueLotteryOutput:" \o (IF e.t = 0 THEN "unshifted" ELSE "torsionShifted"))
 
+(* qualification and quality number are a function of (proof, stake figures, height): the same
+   question asked again, whatever was asked in between, gets the same answer.  seen: id of the
+   question (assigned by the generator's case list) -> inputs and first answer *)
+Question(e) == <<e.v, e.S, e.W, e.height>>
+Answer(e) == <<e.ok, e.qn>>
+JudgeAgain(e) ==
+  IF e.kid \in DOMAIN seen
+    THEN Tag(seen[e.kid][1] = Question(e), "Proj.sameQuestion") \o
+         Tag(seen[e.kid][2] = Answer(e), "Inv.QualificationIsAFunction")
+    ELSE <<>>
+
 JudgeValidate(e) ==
+  IF e.again THEN JudgeAgain(e) ELSE
+  JudgeAgain(e) \o
   LET v == ValBE(e.v)
       S == Norm(e.S)
       W == Norm(e.W)
@@ -79,8 +92,18 @@ JudgeBoundary(e) ==
   Tag(e.verifierAccepts, "Ext.ProverAndVerifierAgree:activationHeight") \o
   Tag(e.controlProverOk => e.controlVerifierAccepts, "Ext.ProverAndVerifierAgree:pastActivation")
 
+(* a related pair of messages of one key, back to back: each proof verifies for its message and not
+   for the other; proving the second message again after unrelated messages gives the same proof *)
+JudgeVrfMsgPair(e) ==
+  LET same == ExpectedForMessage(e.ms, e.mo) IN
+  Tag(e.selfFirst /\ e.selfSecond, "Inv.Complete:msgpair/" \o e.rel) \o
+  Tag(e.crossFirstProofSecondMsg = same /\ e.crossSecondProofFirstMsg = same, "Inv.VerifiesOnlyItsMessage:" \o e.rel) \o
+  Tag(e.secondProofSameLater /\ e.firstProofSameLater, "Inv.Deterministic:msgpair/" \o e.rel) \o
+  Tag(e.proofsEqual = same, "Inv.ProofBindsMessage:" \o e.rel)
+
 Judge(e) ==
   CASE e.event = "VrfCase"       -> <<>>
+    [] e.event = "VrfMsgPair"    -> JudgeVrfMsgPair(e)
     [] e.event = "Retain"        -> JudgeRetain(e)
     [] e.event = "Concurrent"    -> JudgeConcurrent(e)
     [] e.event = "Boundary"      -> JudgeBoundary(e)
@@ -91,13 +114,16 @@ Judge(e) ==
     [] e.event = "ValidateProve" -> JudgeValidate(e)
     [] OTHER                     -> <<"unknown-event">>
 
-TraceInit == w = 0 /\ l = 1 /\ bad = <<>> /\ outs = {}
+TraceInit == w = 0 /\ l = 1 /\ bad = <<>> /\ outs = {} /\ seen = <<>>
 
 TraceNext ==
   /\ l <= Len(Trace)
   /\ l' = l + 1
   /\ LET e == Trace[l] IN
        /\ bad' = bad \o [i \in 1..Len(Judge(e)) |-> <<l, e.event, Judge(e)[i]>>]
+       /\ seen' = IF e.event = "ValidateProve" /\ e.kid \notin DOMAIN seen
+                    THEN [k \in DOMAIN seen \cup {e.kid} |-> IF k = e.kid THEN <<Question(e), Answer(e)>> ELSE seen[k]]
+                    ELSE seen
        /\ outs' = CASE e.event = "VrfCase" -> {}
                     [] e.event = "Prove" -> {e.outClass}
                     [] OTHER -> outs
